@@ -8,7 +8,7 @@ DOM-14  player-add gate                         PAIR-7  machine.game set / clear
 """
 import ast
 
-from sa.model import src, short, dotted, call_attr, kwarg, walk_local, AnalysisError, const_value, assigned_targets
+from sa.model import canon_eq, src, short, dotted, call_attr, kwarg, walk_local, AnalysisError, const_value, assigned_targets
 from sa.index import get_index
 from sa.traces import TraceBuilder, spec_nfa, included, event_label
 
@@ -157,7 +157,7 @@ def check(chk):
            detail="decision uses locals computed before the turn ended: %s" % stale if stale else "", construct=run.ident,
            text="stale end-of-turn decision " + ",".join(sorted(set(stale))))
     tests = sorted(src(t.ast) for t in dec_t)
-    want_t = sorted(["self.slam_tilted", "self.player.ball >= self.balls_per_game", "self.player.number == self.num_players"])
+    want_t = sorted(["self.slam_tilted", "self.player.ball >= self.balls_per_game", canon_eq("self.player.number", "self.num_players")])
     ok = tests == want_t or bool(stale)
     chk.ob("DOM-13", "the game ends after the last player's last ball (or a slam tilt), otherwise it rotates", ok, run.where(), detail=str(tests),
            construct=run.ident, text="end decision terms " + ";".join(tests))
